@@ -142,7 +142,7 @@ func (h ProtectedHeader) SetCWTClaims(claims CWTClaims) (CWTClaims, error) {
 
 // Algorithm gets the algorithm value from the algorithm header.
 func (h ProtectedHeader) Algorithm() (Algorithm, error) {
-	value, ok := h[HeaderLabelAlgorithm]
+	value, ok := lookupLabel(h, HeaderLabelAlgorithm)
 	if !ok {
 		return AlgorithmReserved, ErrAlgorithmNotFound
 	}
